@@ -766,12 +766,17 @@ func nameTreeWalk(g pdf.Getter, root pdf.Object) ([]string, error) {
 
 // WorkerMain is the entry point of the child process.
 func WorkerMain() {
-	// A bounded recursion of 256 levels (the documented depth caps) never
-	// needs more than 64 KiB per level; an unbounded one dies here quickly
-	// instead of eating 1 GB.
-	if os.Getenv("C05_DEFAULT_STACK") == "" {
-		debug.SetMaxStack(16 << 20)
+	// The stack cap.  The screening cap of 16 MiB makes a recursion whose depth
+	// grows with the input die quickly instead of eating Go's default 1 GB; it
+	// is NOT what the property promises: go-pdf bounds recursion by 256
+	// references times 256 levels of direct nesting, which may need some
+	// 64 MiB.  An overflow under the screening cap is therefore re-judged
+	// under 256 MiB with the input scaled up (stream.go, confirmStack).
+	stackMB := 16
+	if v, err := strconv.Atoi(os.Getenv("C05_STACK_MB")); err == nil && v > 0 {
+		stackMB = v
 	}
+	debug.SetMaxStack(stackMB << 20)
 	// An endless loop that also allocates must not take the machine down: the
 	// address space is capped, the runtime then dies with "out of memory"
 	// (a fatal outcome, like the stack overflow).
